@@ -3,7 +3,7 @@
 //! mirrors `app1/appP/app2/appN/app_sel` of coq/Spec/Sodium.v.
 use crate::Script;
 use sodium_rust::{
-    lambda1, lambda2, Cell, CellLoop, CellSink, Dep, Lazy, Listener, Router, SodiumCtx, Stream, StreamLoop,
+    lambda1, lambda2, lambda3, lambda4, lambda5, lambda6, Cell, CellLoop, CellSink, Dep, Lazy, Listener, Router, SodiumCtx, Stream, StreamLoop,
     StreamSink, Transaction,
 };
 use std::collections::{BTreeMap, HashMap};
@@ -248,6 +248,12 @@ fn parse_sel(s: &str) -> Sel {
         "multi" => Sel::Multi,
         _ => panic!("bad sel {}", s),
     }
+}
+
+#[allow(dead_code)]
+enum Kept {
+    S(Stream<V>),
+    C(Cell<V>),
 }
 
 enum Obj {
@@ -669,7 +675,29 @@ impl World {
     }
 
     fn exec(&mut self, line: &str) {
-        let w: Vec<&str> = line.split_whitespace().collect();
+        let mut w: Vec<&str> = line.split_whitespace().collect();
+        // a trailing "keep:X,Y": the user function of this primitive captures handles of slots X, Y (without reading
+        // them) and declares them as dependencies (lambdaN(f, deps)): they must be kept alive, traced once each
+        let mut kept: Vec<Kept> = Vec::new();
+        let mut kdeps: Vec<Dep> = Vec::new();
+        if let Some(k) = w.last().and_then(|t| t.strip_prefix("keep:")) {
+            for h in k.split(',') {
+                let h: usize = h.parse().unwrap();
+                match self.objs.get(&h) {
+                    Some(Obj::Cell(_)) | Some(Obj::CSink(_)) | Some(Obj::CLoop(_)) => {
+                        let c = self.cell(h);
+                        kdeps.push(c.to_dep());
+                        kept.push(Kept::C(c));
+                    }
+                    _ => {
+                        let st = self.stream(h);
+                        kdeps.push(st.to_dep());
+                        kept.push(Kept::S(st));
+                    }
+                }
+            }
+            w.pop();
+        }
         for tok in &w {
             if let Some(hs) = tok.strip_prefix("sel:") {
                 for h in hs.split(',') {
@@ -716,8 +744,15 @@ impl World {
                 self.objs.insert(n(1), Obj::Stream(ctx.new_stream()));
             }
             "map" => {
-                let (f, deps) = self.parse_f1(w[3]);
-                let s = self.stream(n(2)).map(lambda1(move |v: &V| app1(&f, v), deps));
+                let (f, mut deps) = self.parse_f1(w[3]);
+                deps.extend(kdeps);
+                let s = self.stream(n(2)).map(lambda1(
+                    move |v: &V| {
+                        let _ = &kept;
+                        app1(&f, v)
+                    },
+                    deps,
+                ));
                 self.objs.insert(n(1), Obj::Stream(s));
             }
             "map_to" => {
@@ -726,7 +761,13 @@ impl World {
             }
             "filter" => {
                 let p = parse_p(w[3]);
-                let s = self.stream(n(2)).filter(move |v: &V| app_p(p, v));
+                let s = self.stream(n(2)).filter(lambda1(
+                    move |v: &V| {
+                        let _ = &kept;
+                        app_p(p, v)
+                    },
+                    kdeps,
+                ));
                 self.objs.insert(n(1), Obj::Stream(s));
             }
             "filter_opt" => {
@@ -742,7 +783,16 @@ impl World {
             }
             "merge" => {
                 let f = parse_f2(w[4]);
-                let s = self.stream(n(2)).merge(&self.stream(n(3)), move |a: &V, b: &V| app2(f, a, b));
+                let s = self.stream(n(2)).merge(
+                    &self.stream(n(3)),
+                    lambda2(
+                        move |a: &V, b: &V| {
+                            let _ = &kept;
+                            app2(f, a, b)
+                        },
+                        kdeps,
+                    ),
+                );
                 self.objs.insert(n(1), Obj::Stream(s));
             }
             "or_else" => {
@@ -754,21 +804,39 @@ impl World {
                 let cs: Vec<Cell<V>> = w[4..].iter().map(|x| self.cell(x.parse().unwrap())).collect();
                 let s0 = self.stream(n(2));
                 let s = match cs.len() {
-                    1 => s0.snapshot(&cs[0], move |a: &V, b: &V| app_n(f, &[a.clone(), b.clone()])),
-                    2 => s0.snapshot3(&cs[0], &cs[1], move |a: &V, b: &V, c: &V| {
-                        app_n(f, &[a.clone(), b.clone(), c.clone()])
-                    }),
-                    3 => s0.snapshot4(&cs[0], &cs[1], &cs[2], move |a: &V, b: &V, c: &V, d: &V| {
-                        app_n(f, &[a.clone(), b.clone(), c.clone(), d.clone()])
-                    }),
+                    1 => s0.snapshot(&cs[0], lambda2(
+                        move |a: &V, b: &V| {
+                            let _ = &kept;
+                            app_n(f, &[a.clone(), b.clone()])
+                        },
+                        kdeps,
+                    )),
+                    2 => s0.snapshot3(&cs[0], &cs[1], lambda3(
+                        move |a: &V, b: &V, c: &V| {
+                            let _ = &kept;
+                            app_n(f, &[a.clone(), b.clone(), c.clone()])
+                        },
+                        kdeps,
+                    )),
+                    3 => s0.snapshot4(&cs[0], &cs[1], &cs[2], lambda4(
+                        move |a: &V, b: &V, c: &V, d: &V| {
+                            let _ = &kept;
+                            app_n(f, &[a.clone(), b.clone(), c.clone(), d.clone()])
+                        },
+                        kdeps,
+                    )),
                     4 => s0.snapshot5(
                         &cs[0],
                         &cs[1],
                         &cs[2],
                         &cs[3],
+                        lambda5(
                         move |a: &V, b: &V, c: &V, d: &V, e: &V| {
+                            let _ = &kept;
                             app_n(f, &[a.clone(), b.clone(), c.clone(), d.clone(), e.clone()])
                         },
+                        kdeps,
+                    ),
                     ),
                     5 => s0.snapshot6(
                         &cs[0],
@@ -776,9 +844,13 @@ impl World {
                         &cs[2],
                         &cs[3],
                         &cs[4],
+                        lambda6(
                         move |a: &V, b: &V, c: &V, d: &V, e: &V, g: &V| {
+                            let _ = &kept;
                             app_n(f, &[a.clone(), b.clone(), c.clone(), d.clone(), e.clone(), g.clone()])
                         },
+                        kdeps,
+                    ),
                     ),
                     _ => panic!("harness: snapshot arity"),
                 };
@@ -832,29 +904,54 @@ impl World {
                 self.objs.insert(n(1), Obj::Stream(s));
             }
             "map_c" => {
-                let (f, deps) = self.parse_f1(w[3]);
-                let c = self.cell(n(2)).map(lambda1(move |v: &V| app1(&f, v), deps));
+                let (f, mut deps) = self.parse_f1(w[3]);
+                deps.extend(kdeps);
+                let c = self.cell(n(2)).map(lambda1(
+                    move |v: &V| {
+                        let _ = &kept;
+                        app1(&f, v)
+                    },
+                    deps,
+                ));
                 self.objs.insert(n(1), Obj::Cell(c));
             }
             "lift" => {
                 let f = parse_fn(w[2]);
                 let cs: Vec<Cell<V>> = w[3..].iter().map(|x| self.cell(x.parse().unwrap())).collect();
                 let c = match cs.len() {
-                    2 => cs[0].lift2(&cs[1], move |a: &V, b: &V| app_n(f, &[a.clone(), b.clone()])),
-                    3 => cs[0].lift3(&cs[1], &cs[2], move |a: &V, b: &V, c: &V| {
-                        app_n(f, &[a.clone(), b.clone(), c.clone()])
-                    }),
-                    4 => cs[0].lift4(&cs[1], &cs[2], &cs[3], move |a: &V, b: &V, c: &V, d: &V| {
-                        app_n(f, &[a.clone(), b.clone(), c.clone(), d.clone()])
-                    }),
+                    2 => cs[0].lift2(&cs[1], lambda2(
+                        move |a: &V, b: &V| {
+                            let _ = &kept;
+                            app_n(f, &[a.clone(), b.clone()])
+                        },
+                        kdeps,
+                    )),
+                    3 => cs[0].lift3(&cs[1], &cs[2], lambda3(
+                        move |a: &V, b: &V, c: &V| {
+                            let _ = &kept;
+                            app_n(f, &[a.clone(), b.clone(), c.clone()])
+                        },
+                        kdeps,
+                    )),
+                    4 => cs[0].lift4(&cs[1], &cs[2], &cs[3], lambda4(
+                        move |a: &V, b: &V, c: &V, d: &V| {
+                            let _ = &kept;
+                            app_n(f, &[a.clone(), b.clone(), c.clone(), d.clone()])
+                        },
+                        kdeps,
+                    )),
                     5 => cs[0].lift5(
                         &cs[1],
                         &cs[2],
                         &cs[3],
                         &cs[4],
+                        lambda5(
                         move |a: &V, b: &V, c: &V, d: &V, e: &V| {
+                            let _ = &kept;
                             app_n(f, &[a.clone(), b.clone(), c.clone(), d.clone(), e.clone()])
                         },
+                        kdeps,
+                    ),
                     ),
                     6 => cs[0].lift6(
                         &cs[1],
@@ -862,9 +959,13 @@ impl World {
                         &cs[3],
                         &cs[4],
                         &cs[5],
+                        lambda6(
                         move |a: &V, b: &V, c: &V, d: &V, e: &V, g: &V| {
+                            let _ = &kept;
                             app_n(f, &[a.clone(), b.clone(), c.clone(), d.clone(), e.clone(), g.clone()])
                         },
+                        kdeps,
+                    ),
                     ),
                     _ => panic!("harness: lift arity"),
                 };
@@ -872,7 +973,16 @@ impl World {
             }
             "accum" => {
                 let f = parse_f2(w[4]);
-                let c = self.stream(n(2)).accum(parse_val(w[3]), move |a: &V, s: &V| app2(f, a, s));
+                let c = self.stream(n(2)).accum(
+                    parse_val(w[3]),
+                    lambda2(
+                        move |a: &V, s: &V| {
+                            let _ = &kept;
+                            app2(f, a, s)
+                        },
+                        kdeps,
+                    ),
+                );
                 self.objs.insert(n(1), Obj::Cell(c));
             }
             "accum_lazy" => {
@@ -886,7 +996,16 @@ impl World {
                 let fb = parse_f2(w[5]);
                 let s = self
                     .stream(n(2))
-                    .collect(parse_val(w[3]), move |a: &V, s: &V| (app2(fa, a, s), app2(fb, a, s)));
+                    .collect(
+                        parse_val(w[3]),
+                        lambda2(
+                            move |a: &V, s: &V| {
+                                let _ = &kept;
+                                (app2(fa, a, s), app2(fb, a, s))
+                            },
+                            kdeps,
+                        ),
+                    );
                 self.objs.insert(n(1), Obj::Stream(s));
             }
             "collect_lazy" => {
